@@ -8,6 +8,12 @@ package workers
 //@ // ---- C03: max-iterations is a hard ceiling; ids unique and gapless.
 //@ // NextIteration is one atomic step `issue` on the shared counter: iteration' = iteration + 1, and the id handed
 //@ // out is the new counter value unless it exceeds the limit.
+//@ func (*PoolManager).WaitForCompletion
+//@   props C05 C06
+//@   requires m != nil
+//@   modifies closedchans
+//@   ensures result != nil && !closed(result)
+//@
 //@ func (*PoolManager).NextIteration
 //@   props C03
 //@   note the 64-bit counter is assumed not to wrap (fewer than 2^64 iterations per run); the step is stated modulo 2^64
@@ -191,10 +197,20 @@ package workers
 //@   modifies nothing
 //@   ensures result == !p.stopWorkers
 //@
+//@ // C02: stopping drains the pending requests and reports exactly those as dropped
+//@ func (*TriggerPool).stop
+//@   props C02 C05
+//@   requires wfTriggerPool(p)
+//@   modifies p.stopWorkers, p.jobsToExecute.num, GMiter, p.manager.activeScenario.progress.successfulIterationDurations.running, p.manager.activeScenario.progress.failedIterationDurations.running,
+//@            p.manager.activeScenario.progress.droppedIterationCount, NrecS, NrecF, NrecD, SumS, SumF, MinS, MinF, MaxS, MaxF
+//@   ensures [stopped] p.stopWorkers && p.jobsToExecute.num == 0
+//@   ensures [pending-dropped] NrecD == (old(NrecD) + max(0, old(p.jobsToExecute.num))) % 18446744073709551616 && NrecS == old(NrecS) && NrecF == old(NrecF)
+//@
 //@ func (*TriggerPool).maxIterationsReached
 //@   props C02 C03 C05
 //@   requires p.workerCtxCancel != nil
 //@   dyncall workerCtxCancel : cancelFunc
+//@   ghost before call dyn:workerCtxCancel : assert [silently-discarded-before-stop-can-see-them] p.jobsToExecute.num == 0
 //@   modifies p.jobsToExecute.num
 //@   ensures p.jobsToExecute.num == 0
 //@
@@ -207,14 +223,15 @@ package workers
 //@   modifies nothing
 //@
 //@ func (*TriggerPool).run
-//@   props C03 C04 C05 C07
+//@   props C03 C04 C05 C07 C02
 //@   thread-root
+//@   modifies allbut(NrecD)
 //@   requires wfManager(p.manager) && wfState(iterationState) && startWg != nil && p.jobsAvailableCond != nil && p.workerCtxCancel != nil
 //@   ghost at entry : Gok = false ; Greset = false
 //@   ghost after call (*PoolManager).NextIteration : Gid = ret0 ; Gok = (ret1 == nil)
 //@   ghost before call (*T).Reset : assert [reset-after-issue] Gok && !Greset ; assert [reset-id] arg1 == formatUint(Gid, 10) ; assert [own-handle] arg0 == iterationState.t ; Greset = true
 //@   ghost before call (*ActiveScenario).Run : assert [run-after-reset] Gok && Greset ; assert [own-state] arg1 == iterationState ; Gok = false ; Greset = false ; Gruns = Gruns + 1
-//@   loop 0 invariant !Gok && !Greset && wfManager(p.manager) && wfState(iterationState)
+//@   loop 0 invariant !Gok && !Greset && wfManager(p.manager) && wfState(iterationState) && NrecD == old(NrecD)
 //@   ensures [consumed] !Gok
 //@
 //@ func (*ContinuousPool).startWorker
@@ -290,11 +307,15 @@ package workers
 //@   ensures [spawned] Gspawned == p.numWorkers && Gwg == p.numWorkers
 //@   ensures [cancel] p.workerCtxCancel != nil
 //@
+//@ ghost var G2cancelled bool
 //@ func (*TriggerPool).Trigger
 //@   props C09 C02
 //@   requires wfTriggerPool(p) && ctx != nil
+//@   ghost after call invoke:Err : G2cancelled = (ret0 != nil)
 //@   ghost before call (*TriggerPool).sendJobsForExecution : assert [unchanged] arg1 == numJobs && arg0 == p
-//@   modifies p.jobsToExecute.num, GMiter, p.manager.activeScenario.progress.successfulIterationDurations.running, p.manager.activeScenario.progress.failedIterationDurations.running,
+//@   ensures [every-live-tick-supersedes] !G2cancelled ==> (p.jobsToExecute.num == numJobs && NrecD == (old(NrecD) + max(0, old(p.jobsToExecute.num))) % 18446744073709551616)
+//@   ensures [cancelled-tick-ignored] G2cancelled ==> (p.jobsToExecute.num == old(p.jobsToExecute.num) && NrecD == old(NrecD))
+//@   modifies G2cancelled, p.jobsToExecute.num, GMiter, p.manager.activeScenario.progress.successfulIterationDurations.running, p.manager.activeScenario.progress.failedIterationDurations.running,
 //@            p.manager.activeScenario.progress.droppedIterationCount, NrecS, NrecF, NrecD, SumS, SumF, MinS, MinF, MaxS, MaxF
 //@   ensures [wf] wfTriggerPool(p)
 //@
